@@ -281,6 +281,11 @@ def r5(c):
     def is_concat(e):
         return isinstance(e, ast.Lambda) and len(e.args.args) == 2 and isinstance(e.body, ast.BinOp) and isinstance(e.body.op, ast.Add) \
             and {norm(e.body.left), norm(e.body.right)} == {e.args.args[0].arg, e.args.args[1].arg} and norm(e.body.left) == e.args.args[0].arg
+    from sa.util import as_lambda
+    for k_ in scheme:
+        for f_ in ("default", "uniter"):
+            if f_ in scheme[k_] and as_lambda(repo, m, scheme[k_][f_]) is not None:
+                scheme[k_][f_] = as_lambda(repo, m, scheme[k_][f_])
     dflt = scheme["cant_delete"].get("default")
     ok = False
     detail = "default is not `lambda raw_rule: [raw_rule.startswith(...)]`"
